@@ -99,6 +99,9 @@ Definition op_msg (o : wrap_op) : list bytes :=
 (* ---- harness cases:  (1 <start> (<op> ...))
    start:  (0)                nil
            (1 id xMSG)        a foreign root error number id whose Error() is MSG
+           (4 id xMSG kind <start>)  a foreign root with an Unwrap method (kind: 0 nil, 1 itself,
+                              2 another error = <start>, 3 Unwrap() []error) and no Cause method
+           (5 id xMSG <start>)       a foreign causer: Cause() returns <start> (not nil)
            (2 id xMSG)        errors.New(MSG)        (id: identity the harness gives the result)
            (3 id (piece...))  errors.Errorf(format, args...)
    op:     (0) WithStack  (1 xMSG) Wrap  (2 (piece...)) Wrapf  (3 xMSG) WithMessage
@@ -121,14 +124,29 @@ Fixpoint pieces_of_sx (l : list sx) : option (list piece) :=
               end
   end.
 
-Definition start_of_sx (s : sx) : option oerr :=
-  match s with
-  | SL [SZ 0%Z] => Some None
-  | SL [SZ 1%Z; SZ id; SB m] => Some (Some (Root (Z.to_N id) m))
-  | SL [SZ 2%Z; SZ id; SB m] => Some (e_New (Z.to_N id) m)
-  | SL [SZ 3%Z; SZ id; SL ps] =>
-      match pieces_of_sx ps with Some f => Some (e_Errorf (Z.to_N id) f) | None => None end
-  | _ => None
+(* start values; [fuel] bounds the nesting of foreign causers / wrappers inside one another *)
+Fixpoint start_of_sx (fuel : nat) (s : sx) : option oerr :=
+  match fuel with
+  | O => None
+  | S f =>
+      match s with
+      | SL [SZ 0%Z] => Some None
+      | SL [SZ 1%Z; SZ id; SB m] => Some (Some (Root (Z.to_N id) m))
+      | SL [SZ 2%Z; SZ id; SB m] => Some (e_New (Z.to_N id) m)
+      | SL [SZ 3%Z; SZ id; SL ps] =>
+          match pieces_of_sx ps with Some fm => Some (e_Errorf (Z.to_N id) fm) | None => None end
+      | SL [SZ 4%Z; SZ id; SB m; SZ kind; inner] =>
+          match start_of_sx f inner with
+          | Some i => Some (Some (RootU (Z.to_N id) m (Z.to_N kind) i))
+          | None => None
+          end
+      | SL [SZ 5%Z; SZ id; SB m; inner] =>
+          match start_of_sx f inner with
+          | Some (Some i) => Some (Some (RootC (Z.to_N id) m i))
+          | _ => None
+          end
+      | _ => None
+      end
   end.
 
 Definition op_of_sx (s : sx) : option wrap_op :=
@@ -159,7 +177,7 @@ Definition obs_oerr (e : oerr) : sx :=
 Definition run_errors (args : list sx) : sx :=
   match args with
   | [st; SL ops] =>
-      match start_of_sx st, ops_of_sx ops with
+      match start_of_sx 16 st, ops_of_sx ops with
       | Some s, Some os => obs_oerr (nest s os)
       | _, _ => bad_case
       end
